@@ -50,6 +50,14 @@ func checkC13(p *Prog, r *Report) {
 	ruleXTotal(p, r)
 	r.Floor("XTOTAL", 40)
 	ruleRelIdx(p, r) // no floor: rewriting the one search as a loop removes the instance without breaking anything
+	ruleMaxIncl(p, r)
+	rulePropErr(p, r)
+	ruleWsSet(p, r)
+	ruleNarrowX(p, r)
+	r.Floor("NARROWX", 3)
+	r.Floor("WSSET", 1)
+	r.Floor("PROPERR", 1)
+	r.Floor("MAXINCL", 2)
 	r.Floor("NSTBL", 100)
 	r.Floor("XDISPATCH", 40)
 	r.Floor("FORMS", 4)
